@@ -57,6 +57,11 @@ INTEGER_decode_oer(const asn_codec_ctx_t *opt_codec_ctx,
     }
 
     if(ct.positive) {
+        if(req_bytes == 0) {
+            /* There is no octet to take the most significant bit from */
+            ASN__DECODE_FAILED;
+        }
+
         /* X.969 08/2015 10.2(a) */
         unsigned msb;   /* Most significant bit */
         size_t useful_size;
